@@ -4,6 +4,7 @@ import (
 	"errors"
 	"sync"
 
+	"github.com/pgavlin/dawn/internal/verifhook"
 	"go.starlark.net/starlark"
 )
 
@@ -40,11 +41,18 @@ func (c *cache) get(key string) (starlark.Value, bool) {
 //
 //starlark:builtin
 func (c *cache) once(thread *starlark.Thread, fn *starlark.Builtin, key string, function starlark.Callable) (starlark.Value, error) {
+	verifhook.Yield("once.enter")
+	verifhook.Block("once.get")
 	if v, ok := c.get(key); ok {
+		verifhook.Unblock("once.get")
 		return v, nil
 	}
+	verifhook.Unblock("once.get")
+	verifhook.Yield("once.missed")
 
+	verifhook.Block("once.lock")
 	c.m.Lock()
+	verifhook.Unblock("once.lock")
 	defer c.m.Unlock()
 
 	if v, ok := c.entries[key]; ok {
